@@ -125,4 +125,11 @@ def check_cached(inp, prior, data, fails):
     K = np.asarray(got["K"].value)
     if len(mem) and (np.any(K == 0.0) or len(np.unique(K)) != len(K)):
         bad("every-returned-row-carries-its-own-draw[cached,n_batches=3]", K=K)
+    # successive calls on ONE sampler draw fresh linear parameters (independent draws, not the previous call's again)
+    jk = TheJoker(prior, rng=np.random.default_rng(inp["seed"]))
+    runs = [np.asarray(jk.rejection_sample(data, lib, in_memory=False, n_batches=2, n_linear_samples=nl, max_posterior_samples=7)["K"].value) for _ in range(3)]
+    for a_, b_ in ((0, 1), (1, 2), (0, 2)):
+        if len(set(np.round(runs[a_], 12)) & set(np.round(runs[b_], 12))):
+            bad("successive-calls-draw-fresh-linear-parameters[cached]", calls=(a_, b_))
+            break
     return fails
